@@ -270,6 +270,7 @@ fn real_events(p: &Project, files: &[String]) -> Value {
     for (_addr, evs) in rec.units.iter() {
         // a unit belongs to our files if its design-unit declaration is there
         let mut design: Option<&SrcPos> = None;
+        let mut ditem: &'static str = "";
         let mut foreign = false;
         for ev in evs {
             if let Ev::Decl { id: Some(raw), item } = ev {
@@ -279,6 +280,7 @@ fn real_events(p: &Project, files: &[String]) -> Value {
                         Some(pos) => {
                             if design.is_none() {
                                 design = Some(pos);
+                                ditem = *item;
                             }
                         }
                         None => {
@@ -312,7 +314,7 @@ fn real_events(p: &Project, files: &[String]) -> Value {
                 }
             }
         }
-        units.push(json!({"design": pos_json(design), "events": jev}));
+        units.push(json!({"design": pos_json(design), "ditem": ditem, "events": jev}));
     }
     // entity table: everything used + closure over parent / DeclaredBy
     let mut ents = serde_json::Map::new();
@@ -397,15 +399,11 @@ fn run_project(pj: &Value, workdir: &str) -> Value {
             if g[key].is_null() {
                 continue;
             }
-            let mut decls = vec![];
-            let mut refs = vec![];
-            let mut order = 0;
-            let mut fnames = vec![];
+            let mut per_file = serde_json::Map::new();
             for f in g[key].as_array().unwrap() {
                 let name = f[0].as_str().unwrap();
                 let path = format!("{}/{}", dir, name);
-                let (clean, d, r) = strip_markers(&path, f[1].as_str().unwrap(), order);
-                order += d.len() + r.len();
+                let (clean, decls, refs) = strip_markers(&path, f[1].as_str().unwrap(), 0);
                 if ver == 0 {
                     std::fs::write(&path, &clean).unwrap();
                     libfiles.get_mut(&lib).unwrap().push(name.to_string());
@@ -413,16 +411,13 @@ fn run_project(pj: &Value, workdir: &str) -> Value {
                 } else {
                     edits.push((path.clone(), clean));
                 }
-                fnames.push(path);
-                decls.extend(d);
-                refs.extend(r);
+                per_file.insert(path, json!({
+                    "decls": decls.iter().map(|d| json!({"id":d.id,"kind":d.kind,"parent":d.parent,"declby":d.declby,"elig":d.elig,
+                        "line":d.line,"col":d.col,"name":d.name})).collect::<Vec<_>>(),
+                    "refs": refs.iter().map(|r| json!({"id":r.id,"site":r.site,"line":r.line,"col":r.col})).collect::<Vec<_>>(),
+                }));
             }
-            gm[format!("v{}", ver)] = json!({
-                "files": fnames,
-                "decls": decls.iter().map(|d| json!({"id":d.id,"kind":d.kind,"parent":d.parent,"declby":d.declby,"elig":d.elig,
-                    "file":d.file,"line":d.line,"col":d.col,"name":d.name,"order":d.order})).collect::<Vec<_>>(),
-                "refs": refs.iter().map(|r| json!({"id":r.id,"site":r.site,"file":r.file,"line":r.line,"col":r.col,"order":r.order})).collect::<Vec<_>>(),
-            });
+            gm[format!("v{}", ver)] = Value::Object(per_file);
         }
         marks.push(gm);
     }
@@ -430,7 +425,7 @@ fn run_project(pj: &Value, workdir: &str) -> Value {
     let mut msgs = NullMessages;
     let cfg = make_config(&dir, &libfiles, &|l| l == "tp");
     let mut p = Project::from_config(cfg, &mut msgs);
-    p.enable_all_linters();
+    p.enable_unused_declaration_detection();
     let d0 = p.analyse();
     steps.push(json!({"what":"initial","tp":{"lib":false,"tp":true},"diags":diags_json(&d0),"real":real_events(&p, &all_files)}));
     if !edits.is_empty() {
